@@ -432,19 +432,19 @@ theorem refOk_field (A : App) (D : ClassDef) (hD : D ∈ A.allClasses) (f : Text
       cases t with
       | prim p o =>
         simp only [posOk] at hpos
-        by_cases hq : (isEnum p || !primIsDefault p) = true
+        by_cases hq : (isEnum p || !isDefaultA A p) = true
         · rw [if_pos hq] at hpos
           have hrr : refOf A D.ns D.name k (.prim p o) = .named (itemKey A D.ns D.name k (.prim p o)) := by
-            have : (!isEnum p && primIsDefault p) = false := by
-              cases h1 : isEnum p <;> cases h2 : primIsDefault p <;> simp_all
+            have : (!isEnum p && isDefaultA A p) = false := by
+              cases h1 : isEnum p <;> cases h2 : isDefaultA A p <;> simp_all
             simp [refOf, this]
           rw [hrr] at hr
           injection hr with hr
           subst hr
           simp [Schema.hasSimple, beq_iff_eq.mp hpos]
         · have hrr : refOf A D.ns D.name k (.prim p o) = .builtin (builtinOf p) := by
-            have : (!isEnum p && primIsDefault p) = true := by
-              cases h1 : isEnum p <;> cases h2 : primIsDefault p <;> simp_all
+            have : (!isEnum p && isDefaultA A p) = true := by
+              cases h1 : isEnum p <;> cases h2 : isDefaultA A p <;> simp_all
             simp [refOf, this]
           rw [hrr] at hr; cases hr
       | obj cn ons b fields o =>
@@ -473,7 +473,7 @@ theorem class_definition_ok (A : App) (hwf : A.wf = true) (D : ClassDef) (hD : D
   have hbase : namesNodup D.fields = true ∧ fieldsWf D.fields = true := by
     unfold App.wf at hwf
     simp only [Bool.and_eq_true] at hwf
-    have hb := hwf.1
+    have hb := hwf.1.1
     unfold App.wfBase at hb
     rw [List.all_eq_true] at hb
     have := hb D hD
@@ -538,8 +538,7 @@ theorem enum_facets_legal (names : List Text) :
       rw [List.any_eq_false]; intro f hf; obtain ⟨v, _, e⟩ := List.mem_map.mp hf; subst e; simp [Facet.isLength]
     simp [this, optLe, optLt]
 
-theorem prim_def_legal (F6 : Facts06) (p : PrimTy) (hw : primWf p = true)
-    (hq : (isEnum p || !primIsDefault p) = true) :
+theorem prim_base_legal (F6 : Facts06) (p : PrimTy) (hw : primWf p = true) :
     simpleDefOk { base := builtinOf p, facets := primFacets F6 p } = true := by
   cases p with
   | integer k r =>
@@ -549,23 +548,101 @@ theorem prim_def_legal (F6 : Facts06) (p : PrimTy) (hw : primWf p = true)
     rw [e]; exact hw
   | unicode a b c d => exact string_facets_legal F6 a b c d hw
   | enum names => exact enum_facets_legal names
-  | boolean => simp [isEnum, primIsDefault] at hq
-  | date => simp [isEnum, primIsDefault] at hq
-  | time => simp [isEnum, primIsDefault] at hq
-  | dateTime => simp [isEnum, primIsDefault] at hq
-  | duration => simp [isEnum, primIsDefault] at hq
-  | bytes e => simp [isEnum, primIsDefault] at hq
+  | boolean => rfl
+  | date => rfl
+  | time => rfl
+  | dateTime => rfl
+  | duration => rfl
+  | bytes e => cases e <;> rfl
 
-theorem tyDefs_simple_ok (A : App) (cns cname k : Text) :
+theorem facetGet_enum_prefix (g : Facet → Option Int) (hg : ∀ v, g (.enumeration v) = none) (lits : List Text) (fs : List Facet) :
+    facetGet g (lits.map Facet.enumeration ++ fs) = facetGet g fs := by
+  unfold facetGet
+  induction lits with
+  | nil => rfl
+  | cons l r ih => simp only [List.map_cons, List.cons_append, List.findSome?_cons, hg]; exact ih
+
+theorem any_enum_prefix (q : Facet → Bool) (hq : ∀ v, q (.enumeration v) = false) (lits : List Text) (fs : List Facet) :
+    (lits.map Facet.enumeration ++ fs).any q = fs.any q := by
+  induction lits with
+  | nil => rfl
+  | cons l r ih => simp only [List.map_cons, List.cons_append, List.any_cons, hq, Bool.false_or]; exact ih
+
+/-- enumeration facets whose literals are valid for the base type keep a restriction legal -/
+theorem enum_prefix_legal (b : Builtin) (lits : List Text) (fs : List Facet) (hb : b ≠ .boolean)
+    (hl : ∀ l ∈ lits, b.lexOk (b.norm l) = true) (h : simpleDefOk { base := b, facets := fs } = true) :
+    simpleDefOk { base := b, facets := lits.map Facet.enumeration ++ fs } = true := by
+  unfold simpleDefOk at h ⊢
+  simp only [Bool.and_eq_true] at h ⊢
+  constructor
+  · rw [List.all_append, Bool.and_eq_true]
+    refine ⟨?_, h.1⟩
+    rw [List.all_eq_true]
+    intro f hf
+    obtain ⟨l, hlm, e⟩ := List.mem_map.mp hf
+    subst e
+    cases b <;> first | exact absurd rfl hb | exact hl l hlm
+  · have := h.2
+    unfold facetsConsistent at this ⊢
+    rw [facetGet_enum_prefix _ (fun _ => rfl), facetGet_enum_prefix _ (fun _ => rfl), facetGet_enum_prefix _ (fun _ => rfl),
+      facetGet_enum_prefix _ (fun _ => rfl), any_enum_prefix _ (fun _ => rfl), any_enum_prefix _ (fun _ => rfl)]
+    exact this
+
+theorem mem_of_lookup_gen {α β} [BEq α] [LawfulBEq α] (l : List (α × β)) (k : α) (v : β) (h : l.lookup k = some v) : (k, v) ∈ l := by
+  induction l with
+  | nil => cases h
+  | cons e r ih =>
+    obtain ⟨k', v'⟩ := e
+    simp only [List.lookup] at h
+    cases hk : k == k' with
+    | true => rw [hk] at h; injection h with h; subst h; simp [beq_iff_eq.mp hk]
+    | false => rw [hk] at h; exact List.mem_cons_of_mem _ (ih h)
+
+/-- **every enumeration literal of the generated schema is in the lexical space of its base type**
+    (and the restriction as a whole is legal) -/
+theorem prim_def_legalA (A : App) (G : A.leaf.Good) (hvw : A.valuesWf = true) (p : PrimTy) (hw : primWf p = true) :
+    simpleDefOk { base := builtinOf p, facets := primFacetsA A p } = true := by
+  unfold primFacetsA App.enumLits
+  cases he : (A.extraVals p).isEmpty with
+  | true =>
+    simp only [List.isEmpty_iff] at he
+    rw [he]; exact prim_base_legal A.facts p hw
+  | false =>
+    -- the values come from an entry of the table
+    have hent : (p, A.extraVals p) ∈ A.values := by
+      have hlk : A.values.lookup p = some (A.extraVals p) := by
+        cases hl : A.values.lookup p with
+        | none => cases p <;> simp [App.extraVals, hl] at he
+        | some vs => cases p <;> simp_all [App.extraVals]
+      exact mem_of_lookup_gen _ _ _ hlk
+    unfold App.valuesWf at hvw
+    rw [List.all_eq_true] at hvw
+    have hp := hvw _ hent
+    simp only [Bool.and_eq_true, decide_eq_true_eq, List.all_eq_true] at hp
+    obtain ⟨⟨hnb, _⟩, hvals⟩ := hp
+    apply enum_prefix_legal _ _ _ _ _ (prim_base_legal A.facts p hw)
+    · intro e
+      cases p with
+      | boolean => exact hnb rfl
+      | bytes enc => cases enc <;> cases e
+      | _ => cases e
+    · intro l hl
+      obtain ⟨v, hv, hs⟩ := List.mem_filterMap.mp hl
+      have hvv := hvals v hv
+      obtain ⟨s, hs', hok⟩ := leaf_simpleOk A.leaf G A.facts p v hvv.1 (rep_of_leaf p v hvv.1 hvv.2)
+      rw [hs] at hs'; injection hs' with e; subst e
+      simp only [simpleOk, Bool.and_eq_true] at hok
+      exact hok.1
+
+theorem tyDefs_simple_ok (A : App) (G : A.leaf.Good) (hvw : A.valuesWf = true) (cns cname k : Text) :
     ∀ t : Ty, tyWf t = true → ∀ e ∈ (tyDefs A cns cname k t).simple, simpleDefOk e.2 = true
   | .prim p o, hw, e, he => by
     simp only [tyWf, Bool.and_eq_true] at hw
     simp only [tyDefs] at he
     split at he
-    · rename_i hq
-      simp only [List.mem_singleton] at he
+    · simp only [List.mem_singleton] at he
       subst he
-      exact prim_def_legal A.facts p hw.1 hq
+      exact prim_def_legalA A G hvw p hw.1
     · cases he
   | .obj _ _ _ _ _, _, e, he => by simp [tyDefs] at he
   | .arr m el o, hw, e, he => by
@@ -575,17 +652,15 @@ theorem tyDefs_simple_ok (A : App) (cns cname k : Text) :
     obtain ⟨⟨⟨_, _⟩, hwe⟩, _⟩ := hw'
     simp only [tyDefs, Defs.append, List.mem_append] at he
     rcases he with he | he
-    · exact tyDefs_simple_ok A cns cname k el hwe e he
+    · exact tyDefs_simple_ok A G hvw cns cname k el hwe e he
     · cases el with
       | prim p o' =>
         simp only at he
         split at he
-        · rename_i hq
-          simp only [List.mem_singleton] at he
+        · simp only [List.mem_singleton] at he
           subst he
           simp only [tyWf, Bool.and_eq_true] at hwe
-          simp only [Bool.and_eq_true, Bool.not_eq_true'] at hq
-          exact prim_def_legal A.facts p hwe.1 (by simp [hq.2])
+          exact prim_def_legalA A G hvw p hwe.1
         · cases he
       | obj _ _ _ _ _ => cases he
       | arr _ _ _ => cases he
@@ -625,19 +700,19 @@ theorem ref_defined (A : App) (cns cname k : Text) (t : Ty) (key : Key)
   cases t with
   | prim p o =>
     simp only [posOk] at hpos
-    by_cases hq : (isEnum p || !primIsDefault p) = true
+    by_cases hq : (isEnum p || !isDefaultA A p) = true
     · rw [if_pos hq] at hpos
       have hrr : refOf A cns cname k (.prim p o) = .named (itemKey A cns cname k (.prim p o)) := by
-        have : (!isEnum p && primIsDefault p) = false := by
-          cases h1 : isEnum p <;> cases h2 : primIsDefault p <;> simp_all
+        have : (!isEnum p && isDefaultA A p) = false := by
+          cases h1 : isEnum p <;> cases h2 : isDefaultA A p <;> simp_all
         simp [refOf, this]
       rw [hrr] at hr
       injection hr with hr
       subst hr
       simp [Schema.hasSimple, beq_iff_eq.mp hpos]
     · have hrr : refOf A cns cname k (.prim p o) = .builtin (builtinOf p) := by
-        have : (!isEnum p && primIsDefault p) = true := by
-          cases h1 : isEnum p <;> cases h2 : primIsDefault p <;> simp_all
+        have : (!isEnum p && isDefaultA A p) = true := by
+          cases h1 : isEnum p <;> cases h2 : isDefaultA A p <;> simp_all
         simp [refOf, this]
       rw [hrr] at hr; cases hr
   | obj cn ons b fields o =>
@@ -724,13 +799,14 @@ theorem lookup_isSome_of_mem {α} (l : List (Key × α)) (e : Key × α) (h : e 
 
 /-- **gen_compiles.** The schema generated for a well-formed application passes every check libxml2
     applies to this subset of XSD. -/
-theorem gen_compiles (A : App) (hwf : A.wf = true) : (gen A).compiles = true := by
+theorem gen_compiles (A : App) (G : A.leaf.Good) (hwf : A.wf = true) : (gen A).compiles = true := by
   have hc := closed_of_wf A hwf
   have hwf' := hwf
   unfold App.wf at hwf'
   simp only [Bool.and_eq_true] at hwf'
-  have hN := noClash_unfold A hwf'.2
-  have hb := hwf'.1
+  have hN := noClash_unfold A hwf'.1.2
+  have hb := hwf'.1.1
+  have hvw := hwf'.2
   unfold App.wfBase at hb
   rw [List.all_eq_true] at hb
   have hfields : ∀ D ∈ A.allClasses, ∀ f ∈ ownFields A.iface D, tyWf f.2 = true ∧ arrNsOk A D.ns D.name f.1 f.2 = true := by
@@ -760,7 +836,7 @@ theorem gen_compiles (A : App) (hwf : A.wf = true) : (gen A).compiles = true := 
     simp only [classDefs] at hd
     obtain ⟨ds, hds, hed⟩ := List.mem_flatMap.mp hd
     obtain ⟨f, hf, rfl⟩ := List.mem_map.mp hds
-    exact tyDefs_simple_ok A D.ns D.name f.1 f.2 (hfields D hD f hf).1 e hed
+    exact tyDefs_simple_ok A G hvw D.ns D.name f.1 f.2 (hfields D hD f hf).1 e hed
   · rw [List.all_eq_true]
     intro e he
     have hraw : e ∈ rawComplex A := dedupAux_sub [] _ e (by rw [hcomplex] at he; exact he)
